@@ -57,7 +57,12 @@ class SpendCase:
             spk = b"\x51\x20" + q
         elif typ == "p2tr-script":
             nleaves = (1 << pathlen) if pathlen is not None else rng.choice([1, 2, 3, 5, 8])
-            leaf_script = push(xk) + O(rng.choice(["CHECKSIG", "CHECKSIG", "CHECKSIGVERIFY"]))
+            # half of the leaves execute an OP_CODESEPARATOR before the signature check (BIP342 position is signed over)
+            self.cspos = 0xffffffff
+            csprefix = b""
+            if rng.random() < 0.5:
+                csprefix, self.cspos = rng.choice([(O("NOP") + O("CODESEPARATOR"), 1), (O("CODESEPARATOR"), 0), (b"\x51" + O("DROP") + O("CODESEPARATOR"), 2)])
+            leaf_script = csprefix + push(xk) + O(rng.choice(["CHECKSIG", "CHECKSIG", "CHECKSIGVERIFY"]))
             if leaf_script[-1] == OP["CHECKSIGVERIFY"]:
                 leaf_script += b"\x51"
             leaves = [(leaf_script, 0xc0)] + [(push(rb(rng, 8)) + O("DROP") + b"\x51", 0xc0) for _ in range(nleaves - 1)]
@@ -133,7 +138,7 @@ class SpendCase:
             tht = rng.choice([0, 0, 1, 2, 0x83])
             annex = (b"\x50" + rb(rng, rng.choice([0, 9]))) if mut == "annex" else None
             leaf = btc.tapleaf_hash(leaf_script)
-            sig = btc.sign_schnorr_taproot(tx, 0, signer, [(sign_amount, spk)], tht, annex, leaf)
+            sig = btc.sign_schnorr_taproot(tx, 0, signer, [(sign_amount, spk)], tht, annex, leaf, self.cspos)
             c = bytearray(ctrl)
             if mut == "control-size":
                 c = c + rng.choice([b"\x00", b"\x00" * 31, b"\x00" * 33]) if rng.random() < 0.5 or len(c) == 33 else c[:-1]
